@@ -22,7 +22,7 @@ pub struct ChunkDeserializer {
     current_header: ChunkHeader,
     current_stage: ParseStage,
     current_payload: MessagePayload,
-    current_payload_data: BytesMut,
+    partial_payloads: HashMap<u32, BytesMut>,
     buffer: BytesMut,
     previous_headers: HashMap<u32, ChunkHeader>,
 }
@@ -62,7 +62,7 @@ impl ChunkDeserializer {
             buffer: BytesMut::with_capacity(4096),
             previous_headers: HashMap::new(),
             current_payload: MessagePayload::new(),
-            current_payload_data: BytesMut::new(),
+            partial_payloads: HashMap::new(),
         }
     }
 
@@ -231,7 +231,7 @@ impl ChunkDeserializer {
             // across multiple chunks.  We need to be careful *NOT* to apply the delta to each
             // type 3 chunk that's trying to serve a single message, otherwise timestamps will
             // get out of control.
-            if self.current_payload_data.len() == 0 {
+            if self.current_partial_payload_length() == 0 {
                 // Since we don't have any payload data yet, that means this is the first
                 // chunk of the message.  As it's the first chunk this is the only time we should
                 // apply the previous header's delta to the timestamp
@@ -352,7 +352,7 @@ impl ChunkDeserializer {
         // If the type 3 chunk is not the first chunk of a message, we just ignore it's extended timestamp because the timestamp of this message was already deserialized.
         if self.current_header_format == ChunkHeaderFormat::Full {
             self.current_header.timestamp.set(timestamp);
-        } else if self.current_payload_data.len() == 0 {
+        } else if self.current_partial_payload_length() == 0 {
             // Since we already added the MAX_INITIAL_TIMESTAMP to the timestamp, only add the delta difference
             self.current_header.timestamp =
                 self.current_header.timestamp + timestamp.wrapping_sub(MAX_INITIAL_TIMESTAMP);
@@ -362,12 +362,19 @@ impl ChunkDeserializer {
         Ok(ParseStageResult::Success)
     }
 
+    fn current_partial_payload_length(&self) -> usize {
+        self.partial_payloads
+            .get(&self.current_header.chunk_stream_id)
+            .map_or(0, |data| data.len())
+    }
+
     fn get_message_data(
         &mut self,
         message_to_return: &mut Option<MessagePayload>,
     ) -> Result<ParseStageResult, ChunkDeserializationError> {
         let mut length = self.current_header.message_length as usize;
-        let current_payload_length = self.current_payload_data.len();
+        let csid = self.current_header.chunk_stream_id;
+        let current_payload_length = self.current_partial_payload_length();
         let remaining_bytes = match length.checked_sub(current_payload_length) {
             Some(x) => x,
             None => {
@@ -377,9 +384,7 @@ impl ChunkDeserializer {
                 })
             }
         };
-        if length > self.max_chunk_size as usize {
-            length = min(remaining_bytes, self.max_chunk_size as usize);
-        }
+        length = min(remaining_bytes, self.max_chunk_size as usize);
 
         if self.buffer.len() < length {
             return Ok(ParseStageResult::NotEnoughBytes);
@@ -389,23 +394,31 @@ impl ChunkDeserializer {
         self.current_payload.type_id = self.current_header.message_type_id;
         self.current_payload.message_stream_id = self.current_header.message_stream_id;
 
+        // Messages on different chunk streams may be interleaved, so the partial payload of
+        // each chunk stream is kept separately.
+        let mut payload_data = self
+            .partial_payloads
+            .remove(&csid)
+            .unwrap_or_else(BytesMut::new);
+
         // Make sure the we have enough capacity for the whole message data.  This
         // helps with performance when there are smaller chunk sizes.
-        if remaining_bytes > self.current_payload_data.remaining_mut() {
-            let capacity_needed = remaining_bytes - self.current_payload_data.remaining_mut();
-            self.current_payload_data.reserve(capacity_needed);
+        if remaining_bytes > payload_data.remaining_mut() {
+            let capacity_needed = remaining_bytes - payload_data.remaining_mut();
+            payload_data.reserve(capacity_needed);
         }
 
         let bytes = self.buffer.split_to(length as usize);
-        self.current_payload_data.extend_from_slice(&bytes[..]);
+        payload_data.extend_from_slice(&bytes[..]);
 
         // Check if this completes the message
-        if self.current_payload_data.len() == self.current_header.message_length as usize {
-            let data = mem::replace(&mut self.current_payload_data, BytesMut::new());
-            self.current_payload.data = data.freeze();
+        if payload_data.len() == self.current_header.message_length as usize {
+            self.current_payload.data = payload_data.freeze();
 
             let payload = mem::replace(&mut self.current_payload, MessagePayload::new());
             *message_to_return = Some(payload)
+        } else {
+            self.partial_payloads.insert(csid, payload_data);
         }
 
         // This completes the current chunk, so cycle the header into the map and start a new one
